@@ -293,62 +293,9 @@ const c14Rule = "blocks: the same (source, depth, destination length) is compres
 	"table slot is dirty), twice in a row, and through the pooled package function (three times, optionally while 8 goroutines hammer the same pools), into destinations with different prior " +
 	"contents and spare capacity: all outputs (n, error-or-not, bytes) must be identical. Frames: the same stream and options written sequentially with one Write (base) and with concurrency " +
 	"{1,2,4,16} x Write partitions (no Flush) x drawn virtual-time schedules inside a synctest bubble, pooled buffers overwritten with a per-release pattern: byte-identical. The frame campaign is " +
-	"repeated with GOMAXPROCS 1. Non-trivial = the input compresses with >= 1 match and the runs differ in history / schedule / partition; distinct by hash(input, options, variants)."
-
-// TestC14LongHistory: one compressor object after exactly N small calls, N around the powers of two where an 8-, 16-
-// or 17-bit generation counter would wrap (the property quantifies over all prior histories, of any length).
-func TestC14LongHistory(t *testing.T) {
-	rec := stat.For("C14")
-	rec.SetRule(c14Rule)
-	if shard != 0 {
-		return
-	}
-	target := gen.Data{Segs: []gen.Seg{{K: "text", N: 3000, S: 5, P: 3}, {K: "rand", N: 500, S: 6}, {K: "copy", N: 400, P: 700, S: 1}}}.Build()
-	small := [][]byte{[]byte("abcabcabcabcabcabcab"), []byte("0123456789"), target[:40], {}}
-	for _, kind := range []string{"fast-obj", "hc-obj"} {
-		var fresh blockComps
-		want := make([]byte, lz4.CompressBlockBound(len(target)))
-		wn, _ := fresh.compress(kind, 4, target, want)
-		var used blockComps
-		dst := make([]byte, 128)
-		calls := 0
-		// the object has seen nearly the same bytes before, at the same positions, but scanned with another stride
-		// (a run at the start): table entries it left behind point at content the target shares
-		variant := append([]byte(nil), target...)
-		copy(variant, "aaaaaaaaa")
-		variant[1500], variant[1501] = 'z', 'z'
-		_, _ = used.compress(kind, 4, variant, make([]byte, len(want)+64))
-		calls++
-		// (the variant is compressed right after each stop; the stops are spaced so that the target comes 255, 256, 257,
-		// 65535, 65536, 65537 ... calls after a variant)
-		last := 1 // call number of the most recent variant
-		for _, gap := range []int{255, 256, 257, 65535, 65536, 65537, 131071, 131072, 131073} {
-			n := last + gap
-			for calls < n-1 {
-				_, _ = used.compress(kind, 4, small[calls%len(small)], dst)
-				calls++
-			}
-			got := make([]byte, len(want))
-			var gn int
-			var gerr error
-			if f := safelyF(func() *stat.Failure { gn, gerr = used.compress(kind, 4, target, got); return nil }); f != nil {
-				f.Sig = "C14/block/" + kind[:2] + "/panic-after-a-long-history"
-				judge(t, "C14", "C14/longhistory", map[string]interface{}{"kind": kind, "calls-after-a-related-input": gap}, f)
-			}
-			calls++
-			// and leave the variant's entries behind again for the next stop
-			_, _ = used.compress(kind, 4, variant, make([]byte, len(want)+64))
-			calls++
-			last = calls
-			rec.Eval()
-			rec.Class("block/long-history")
-			rec.NonTrivial(stat.FP("long", kind, gap))
-			if gerr != nil || gn != wn || !bytes.Equal(got[:gn], want[:wn]) {
-				judge(t, "C14", "C14/longhistory", map[string]interface{}{"kind": kind, "calls-after-a-related-input": gap}, stat.Failf("C14/block/"+kind[:2]+"/output-depends-on-the-number-of-earlier-calls", "%s: call number %d on the same object gives n=%d err=%v, a fresh compressor gives n=%d (first difference at %d)", kind, calls, gn, gerr, wn, firstDiff(got[:gn], want[:wn])))
-			}
-		}
-	}
-}
+	"repeated with GOMAXPROCS 1. Non-trivial = the input compresses with >= 1 match and the runs differ in history / schedule / partition; distinct by hash(input, options, variants). " +
+	"Long-lived objects (pinned regimes): targets compressed exactly 255/256/257/65535/65536/65537 calls after nearly identical inputs (small inputs in between, long enough to use the tables or mixed with shorter ones); " +
+	"after 2^31, 2^32, 2^32+2^31, 2^33 bytes (minus 64 or 4096) through the same object: must equal a fresh object's output."
 
 func TestC14Blocks(t *testing.T) {
 	rec := stat.For("C14")
